@@ -4,6 +4,8 @@ SPECIFICATION Spec
 CONSTANTS
   ChSC <- Ch_RO
   ChCS <- Ch_RO
+  SeqBase = 0
+  MidBase = 0
   Budget = 60000
   Workload <- WL_RO_small_sliced
   MaxFlushS = 1
